@@ -363,7 +363,7 @@ pub fn c07_continuation(cfg: &Arc<W4Cfg>, acts: &[Act]) -> Result<u32, (String, 
         // "back in cyclic data exchange" is judged on BOTH sides: the master reports running + DataExchanged,
         // and the (conforming) slave is in its data-exchange state — not still waiting for parameters while
         // the master takes its refusals for confirmations
-        let present = |i: usize| cfg.slave_dev.get(i).copied() != Some(3);
+        let present = |i: usize| !matches!(cfg.slave_dev.get(i).copied(), Some(3) | Some(4));
         let all = (0..n).filter(|i| present(*i)).all(|i| e.rig.periph(i).is_running() && e.dx_events[i] > start_dx[i] && e.slaves[i].state == crate::dprig::SlaveState::DataExch);
         if all && ok_at.is_none() {
             ok_at = Some(steps);
@@ -472,6 +472,10 @@ pub fn run_c07(tier: Tier) -> ! {
             let mut cfg = base_cfg(ps, Mon::C07, vec![Act::Answer, Act::ReqLost, Act::PowerCycle, Act::Malformed(8)]);
             for a in &absent {
                 cfg.slave_dev[*a] = 3;
+            }
+            if n == 6 {
+                // one of the stations that do answer belongs to another master
+                cfg.slave_dev[4] = 4;
             }
             cfg.dev_budget = tier.pick(1, 2);
             plans.push(Plan { label: format!("{n}p absent{absent:?}"), cfg, depth: tier.pick(3 * n, 4 * n + 4), max_states: tier.pick(50_000, 1_000_000), secs: tier.pick(60.0, 2400.0) });
@@ -625,6 +629,19 @@ pub fn run_c14(tier: Tier) -> ! {
             acts
         };
         plans.extend(param_sweep_plans(Mon::C14, a(1), a(2), tier));
+        // a configured peripheral that belongs to ANOTHER DP master (its diagnostics name master 1, it
+        // acknowledges our Set_Prm/Chk_Cfg without executing them and refuses Data_Exchange): alone, and next
+        // to a peripheral of our own — events stay consistent with the life cycle and with is_live()
+        for (n, locked) in [(1usize, vec![0usize]), (2, vec![0]), (2, vec![1])] {
+            let mut cfg = base_cfg(vec![PeriphCfg::simple(9, 2, 1), PeriphCfg::simple(11, 0, 2)][..n].to_vec(), Mon::C14, a(n as u8));
+            for l in &locked {
+                cfg.slave_dev[*l] = 4;
+            }
+            if n == 2 {
+                cfg.dev_budget = 3;
+            }
+            plans.push(Plan { label: format!("{n}p locked by another master {locked:?}"), cfg, depth: tier.pick(10, 16), max_states: tier.pick(60_000, 1_000_000), secs: tier.pick(60.0, 2400.0) });
+        }
     }
     let t = explore(plans, tier.pick(400.0, 14400.0), &|_w| {});
     finish_mc(
